@@ -9,11 +9,33 @@ QUERIES = [
     bounds='real detail::on_alarm with the recorded original signal in {none, TERM, INT, ABRT, FPE, ILL, SEGV}',
     what='the watchdog restores the default disposition of and re-raises the ORIGINAL signal (SIGALRM itself when it came first); it never exits successfully'),
 ]
-BOUNDS = 'one handler entry; all six handled signals'
-OUTSIDE = 'NOT APPLICABLE and not claimed: kernel signal delivery, that the process then dies with that wait status, async-signal-safety, atexit/static destruction order, thread join, and the BackendWorker::_exit drain (backend kernels not under the memory cap). Backend::stop / restart.'
+# ---- the real _exit() drain loop with the kernels replaced by their contracts (harness/C07_exit.cpp)
+BW = r'^_ZN5quill2v96detail13BackendWorker'
+SK_HOOKS = [BW + r'54_check_frontend_queues_and_cached_transit_events_emptyEv=vh_all_empty', BW + r'45_populate_transit_events_from_frontend_queuesEv=vh_populate',
+            '?' + BW + r'62has_pending_events_for_caching_when_transit_event_buffer_emptyEv=vh_has_pending', BW + r'39_process_lowest_timestamp_transit_eventEv=vh_process_lowest',
+            BW + r'22_check_failure_counterE.*=vh_check_counter', BW + r'27_flush_and_run_active_sinksE.*=vh_final_flush',
+            BW + r'36_cleanup_invalidated_thread_contextsEv=vh_cleanup_contexts', BW + r'28_cleanup_invalidated_loggersEv=vh_cleanup_loggers',
+            '?' + BW + r'36_update_active_thread_contexts_cacheEv=vh_update_cache']
+def skel(name, entry, nc, nr, hard, tier, timeout=280, stalls=2):
+    return Q('%s_c%d_r%d_h%d' % (name, nc, nr, hard), 'C07_exit.cpp', entry, defines=['NC=%d' % nc, 'NR=%d' % nr, 'HARD=%d' % hard, 'STALLS=%d' % stalls, 'NCTX=2', 'TEBCAP=2'],
+             cuts=[r'^_ZN5quill2v96detail12TransitEvent(C2|D2|aS)'], hooks=SK_HOOKS, models=['m_transit.c', 'm_throw.c', 'm_env.c'], libmodels=['m_string.c', 'm_stl.c'],
+             unwind=12, tier=tier, timeout=timeout,
+             bounds='%d thread contexts x <= %d records (symbolic per-thread non-decreasing timestamps, any split into buffered/queued), ring hard limit %d, cut-off of each pass symbolic and non-decreasing, <= %d passes that move nothing, <= 8 passes' % (nc, nr, hard, stalls),
+             what='real BackendWorker::_exit() over the kernel CONTRACTS (hooks): with wait_for_queues_to_empty_before_exit every record is written exactly once, in non-decreasing global timestamp order, although records newer than the cut-off are held back; the failure counters are checked and the sinks flushed after the last write; without the option the loop ends at once (still flushing)')
+PK_HOOKS = SK_HOOKS + ['?' + BW + r'19_resync_rdtsc_clockEv=vh_resync', '?' + BW + r'39_try_shrink_empty_transit_event_buffersEv=vh_shrink']
+def pskel(nc, nr, hard, passes, tier, timeout=280):
+    q = skel('poll_skeleton_p%d' % passes, 'h_poll_skeleton', nc, nr, hard, tier, timeout)
+    q.defines = list(q.defines) + ['PASSES=%d' % passes]; q.hooks = PK_HOOKS
+    q.bounds = '%d thread contexts x <= %d records, ring hard limit %d, soft limit 1..4 (symbolic), %d passes of the real _poll(); cut-off of each pass symbolic and non-decreasing; between passes any producer may enqueue one more record stamped after the last cut-off' % (nc, nr, hard, passes)
+    q.what = 'real BackendWorker::_poll() over the kernel CONTRACTS (hooks): whatever the cut-offs, the soft limit (single-event vs batch branch) and the producers do, the written sequence is in non-decreasing global timestamp order and no record is lost (written + buffered + queued = logged)'
+    return q
+QUERIES += [pskel(2, 2, 1, 3, 'quick'), pskel(2, 2, 2, 3, 'thorough', 1700), pskel(2, 3, 1, 4, 'thorough', 1700)]
+QUERIES += [skel('exit_skeleton', 'h_exit_skeleton', 2, 2, 2, 'quick'), skel('exit_skeleton', 'h_exit_skeleton', 2, 2, 1, 'quick'), skel('exit_skeleton', 'h_exit_skeleton', 2, 3, 2, 'thorough', 1700)]
+BOUNDS = 'one handler entry; all six handled signals; exit/poll skeletons: 2 contexts x <= 3 records, <= 8 passes'
+OUTSIDE = 'NOT APPLICABLE and not claimed: kernel signal delivery, that the process then dies with that wait status, async-signal-safety, atexit/static destruction order, thread join. Backend::stop / restart around _exit (thread join, atexit). The _exit/_poll skeleton queries use the kernel contracts (decided separately: C03 K1/K3/K4), not the kernels themselves.'
 ASSUMPTIONS = ['exit, signal, raise, alarm, pause, strsignal, gettid, sleep = recording stubs (rt/m_signal.c); logger lookup, the notice log_statement and flush_log = recording hooks: what flush_log guarantees is C06']
 MANIFEST = {
- 'text': 'Reduced scope: the solver decides the decision logic of the real built-in signal handler as a one-step state machine over all handled signals, callers and configurations: the notice is logged and the flush completes before the process is allowed to end (exit for SIGINT/SIGTERM, default disposition + re-raise of the original signal otherwise), the watchdog alarm is armed, the backend thread never logs to itself, a concurrent second entry parks. Everything that is operating-system behaviour, and the exit-time drain of the backend, is not claimed.',
- 'note': 'Environment and logging calls are recording stubs/hooks; one handler entry. Trusted: clang IR, translator, CBMC.',
- 'technique': 'CBMC/SAT over clang IR of the real on_signal with symbolic signal/caller/configuration and effect-recording environment stubs; native replay',
+ 'text': 'Reduced scope: the solver decides the decision logic of the real built-in signal handler as a one-step state machine over all handled signals, callers and configurations: the notice is logged and the flush completes before the process is allowed to end (exit for SIGINT/SIGTERM, default disposition + re-raise of the original signal otherwise), the watchdog alarm is armed, the backend thread never logs to itself, a concurrent second entry parks. Exit-time drain: on the real BackendWorker::_exit() loop, with the kernels it calls replaced by their contracts (IR hooks; the contracts are what C03 K1/K3/K4 decide), wait_for_queues_to_empty_before_exit writes every record of every thread exactly once in global timestamp order - records newer than the ordering cut-off included - and only then checks the failure counters and flushes the sinks. Everything that is operating-system behaviour is not claimed.',
+ 'note': 'Environment and logging calls are recording stubs/hooks; one handler entry. Skeleton queries: abstract queue/ring state, symbolic cut-offs, bounded stalls. Trusted: clang IR, translator, CBMC.',
+ 'technique': 'CBMC/SAT over clang IR of the real on_signal with symbolic signal/caller/configuration and effect-recording environment stubs; real _exit/_poll loops over kernel contracts (assume/guarantee via IR hooks); native replay',
 }
